@@ -407,9 +407,30 @@ class Repo:
             if len(cands) == 1:
                 resolved_to.setdefault(id(cands[0]), []).append(key)
             pending.append((key, qual, mod, cands))
+        # several helpers renamed at once: pair old and new by how alike the bodies are (pinned fingerprint), greedily, one-to-one
+        scored = []
         for key, qual, mod, cands in pending:
+            fp = private[key].get('fp')
+            for f in cands:
+                scored.append((similarity(fp, fingerprint(f)) if fp else 0.0, key, f))
+        scored.sort(key=lambda t: -t[0])
+        taken_keys, taken_funcs, chosen = set(), set(), {}
+        for sc, key, f in scored:
+            if key in taken_keys or id(f) in taken_funcs:
+                continue
+            rivals = [s2 for s2, k2, f2 in scored if (k2 == key or f2 is f) and not (k2 == key and f2 is f)
+                      and k2 not in taken_keys and id(f2) not in taken_funcs]
+            if sc >= 0.5 and all(sc - r >= 0.15 for r in rivals):
+                chosen[key] = f
+                taken_keys.add(key)
+                taken_funcs.add(id(f))
+        for key, qual, mod, cands in pending:
+            f = None
             if len(cands) == 1 and len(self._rename_targets[id(cands[0])]) == 1:
                 f = cands[0]
+            elif key in chosen:
+                f = chosen[key]
+            if f is not None:
                 self.renamed[key] = f.key
                 if f.module.name != mod:
                     f.pinned_key = key
@@ -520,3 +541,42 @@ def callees_of(repo, f):
             if isinstance(init, FuncInfo):
                 out.add(init.key)
     return out
+
+
+def fingerprint(f):
+    """Name-independent description of a function body: node kinds, constants, attribute names, called names that are
+    not locals/parameters.  Used to tell renamed private helpers apart."""
+    from collections import Counter
+    params = {p[0] for p in f.params()}
+    local = set(params)
+    for n in ast.walk(f.node):
+        if isinstance(n, ast.Name) and isinstance(n.ctx, ast.Store):
+            local.add(n.id)
+    c = Counter()
+    for n in ast.walk(f.node):
+        if n is f.node:
+            continue
+        if isinstance(n, ast.Constant) and isinstance(n.value, (str, int, float, complex, bool)) and not \
+                (isinstance(getattr(n, 'value', None), str) and len(n.value) > 60):
+            c[f'k:{n.value!r}'] += 1
+        elif isinstance(n, ast.Attribute):
+            c[f'a:{n.attr}'] += 1
+        elif isinstance(n, ast.Name) and n.id not in local:
+            c[f'n:{n.id}'] += 1
+        elif isinstance(n, (ast.If, ast.For, ast.While, ast.Return, ast.Raise, ast.Compare, ast.BinOp, ast.Subscript, ast.Call,
+                            ast.IfExp, ast.ListComp, ast.BoolOp)):
+            c[f't:{type(n).__name__}'] += 1
+    return dict(c)
+
+
+def similarity(fp1, fp2):
+    from collections import Counter
+    a, b = Counter(fp1), Counter(fp2)
+    # module-level / private names may have been renamed along with the function: do not count them
+    drop = [k for k in set(a) | set(b) if k.startswith('n:_')]
+    for k in drop:
+        a.pop(k, None)
+        b.pop(k, None)
+    inter = sum((a & b).values())
+    union = sum((a | b).values())
+    return inter / union if union else 0.0
